@@ -135,24 +135,37 @@ Theorem C03_refuses_only_when_insufficient :
 Proof. exact create_refused. Qed.
 Print Assumptions C03_refuses_only_when_insufficient.
 
-(* After a refusal the wallet is the original one with the transaction's own inputs released: none of them is
-   reserved and nothing became reserved. *)
+(* create(..., sign=True) = the loop above followed, still inside the try, by tx.sign; [can_sign] says whether
+   the final input list can be signed.  After ANY failure -- InsufficientFundsError or an exception out of
+   tx.sign (locked account, no key for an input's address) -- the wallet is the original one with the
+   transaction's own inputs released: none of them is reserved and nothing became reserved. *)
 Theorem C03_release_on_failure :
   forall fpb fpnc shuffle, (forall l, Permutation l (shuffle l)) -> 0 <= fpb ->
-  forall strat pre outs w0, NoDup (map (fun e : utxo * bool => uid (fst e)) w0) ->
-  forall w', create fpb fpnc shuffle strat pre outs w0 = Refused w' ->
+  forall strat pre outs can_sign w0, NoDup (map (fun e : utxo * bool => uid (fst e)) w0) ->
+  forall w',
+  (create_signed fpb fpnc shuffle strat pre outs can_sign w0 = Insufficient w' \/
+   create_signed fpb fpnc shuffle strat pre outs can_sign w0 = SignFails w') ->
   w' = release (map iid pre) w0 /\ (forall i, In i (map iid pre) -> ~ In i (reserved_ids w')) /\
   (forall i, In i (reserved_ids w') -> In i (reserved_ids w0)).
-Proof. exact release_on_failure. Qed.
+Proof. exact release_on_any_failure. Qed.
 Print Assumptions C03_release_on_failure.
 
-(* The model of create has exactly two outcomes; the correspondence shows the implementation raises
-   nothing but InsufficientFundsError. *)
+(* a signed build that succeeds is a successful create (so C03_conservation_and_fee / C03_change_rule apply) *)
+Theorem C03_signed_built :
+  forall fpb fpnc shuffle strat pre outs w0 can_sign added ch w',
+  create_signed fpb fpnc shuffle strat pre outs can_sign w0 = Built added ch w' ->
+  create fpb fpnc shuffle strat pre outs w0 = Ok added ch w' /\ can_sign (map iid pre ++ map uid added) = true.
+Proof. exact create_signed_built. Qed.
+Print Assumptions C03_signed_built.
+
+(* The model has exactly three outcomes: built, refused for lack of funds, failed while signing (an injected
+   fault); the correspondence shows the implementation raises nothing else. *)
 Theorem C03_no_other_failure :
-  forall fpb fpnc shuffle strat pre outs w,
-  (exists a c w', create fpb fpnc shuffle strat pre outs w = Ok a c w') \/
-  (exists w', create fpb fpnc shuffle strat pre outs w = Refused w').
-Proof. exact create_total. Qed.
+  forall fpb fpnc shuffle strat pre outs w0 can_sign,
+  (exists a c w', create_signed fpb fpnc shuffle strat pre outs can_sign w0 = Built a c w') \/
+  (exists w', create_signed fpb fpnc shuffle strat pre outs can_sign w0 = Insufficient w') \/
+  (exists w', create_signed fpb fpnc shuffle strat pre outs can_sign w0 = SignFails w').
+Proof. exact create_signed_total. Qed.
 Print Assumptions C03_no_other_failure.
 
 (* ... and the one place where the code could raise something else inside the selector, the list access
